@@ -39,12 +39,13 @@ var c17Reqs = []c17Req{
 	{"typename-fields", `{ __typename a { __typename id name } u { __typename ... on A { aOnly } ... on B { bOnly } } nodes(n:2) { __typename id } }`, nil, nil, "success", false, true},
 	{"thunk-then-nonnull-fail", `{ x1 leafy { s i sNN } b { name nn { s iNN } } }`, nil, map[string]string{"R@leafy.s": FThunk, "R@leafy.i": FThunk, "R@leafy.sNN": FErr, "R@b.name": FThunk, "R@b.nn.s": FThunk, "R@b.nn.iNN": FNil}, "field", false, false},
 	{"mutation-on-query-only-schema", `mutation { ... on Node { id } s1(v:1) }`, nil, nil, "validation", true, false},
+	{"resolver-panics", `{ x1 leafy { s sNN } b { id name } x2 }`, nil, map[string]string{"R@x1": FPanicErr, "R@leafy.s": FPanicStr, "R@b.id": FPanicInt, "R@x2": FPanicErr}, "field", false, false},
 	{"subscription-on-query-only-schema", `subscription { ... on U { ... on A { id } } events { id } }`, nil, nil, "validation", true, false},
 }
 
 var c17Hooks = []string{"Init", "PS", "PE", "VS", "VE", "ES", "EE", "RS", "RE", "HR", "GR"}
 var c17NilFinish = []string{"PS", "VS", "ES", "RS"}
-var c17Values = []string{"error", "string", "int", "struct"}
+var c17Values = []string{"error", "string", "int", "struct", "evilerr", "evilstr"}
 var c17ExtConf = [][2]int{{1, 0}, {2, 0}, {2, 1}, {3, 0}, {3, 1}, {3, 2}}
 
 type C17Scn struct {
@@ -55,6 +56,10 @@ type C17Scn struct {
 	HasResult map[string]bool   `json:"has_result,omitempty"`
 	Order     uint32            `json:"order"`
 	Salt      uint64            `json:"salt"`
+	// Cancel, when set, is a simulated request with cancellation (a C16
+	// scenario) run with NExt instrumented extensions: the hook log is judged
+	// as it stands when the call returns
+	Cancel json.RawMessage `json:"cancel,omitempty"`
 }
 
 type c17 struct{}
@@ -95,6 +100,14 @@ func (p c17) Gen(seed uint64, enum int, tier string) json.RawMessage {
 		return mustJSON(s)
 	}
 	r := NewRNG(seed)
+	if r.Chance(12) {
+		s.NExt = 1 + r.Intn(2)
+		for i := 0; i < s.NExt; i++ {
+			s.HasResult[extName(i)] = r.Chance(70)
+		}
+		s.Cancel = c16{}.Gen(r.Uint64(), -1, tier)
+		return mustJSON(s)
+	}
 	s.Entry = []string{"do", "plan", "plan-addext"}[r.Intn(3)]
 	s.Req = r.Intn(len(c17Reqs))
 	s.NExt = 1 + r.Intn(3)
@@ -179,12 +192,19 @@ func parseExtLog(log []string) (evs []extEv) {
 	return
 }
 
+// the names under which the library reports a failed hook
+var c17HookFunc = map[string]string{"Init": "Init", "PS": "ParseDidStart", "PE": "ParseFinishFunc", "VS": "ValidationDidStart", "VE": "ValidationFinishFunc",
+	"ES": "ExecutionDidStart", "EE": "ExecutionFinishFunc", "RS": "ResolveFieldDidStart", "RE": "ResolveFieldFinishFunc", "HR": "GetResult", "GR": "GetResult"}
+
 var c17Rank = map[string]int{"Init": 0, "PS": 1, "PE": 2, "VS": 3, "VE": 4, "ES": 5, "RS": 6, "RE": 6, "EE": 7, "HR": 8, "GR": 9}
 
 func (c17) Run(t TestingT, scn json.RawMessage, tape *Tape) *Outcome {
 	var sc C17Scn
 	if err := json.Unmarshal(scn, &sc); err != nil {
 		return &Outcome{Infra: "bad scenario: " + err.Error()}
+	}
+	if sc.Cancel != nil {
+		return c17Cancel(t, &sc, tape)
 	}
 	o := &Outcome{}
 	req := c17Reqs[sc.Req]
@@ -353,7 +373,12 @@ func (c17) Run(t TestingT, scn json.RawMessage, tape *Tape) *Outcome {
 					if !(rp[1] >= 0 && rp[1] < e.Pos) {
 						o.Violate("C17/resolve-not-enclosing", "%s: RE:%s does not follow the resolver's return", x, e.Path)
 					}
-					if ri := rInfo[e.Path]; ri != e.Info {
+					if ri := rInfo[e.Path]; ri == "panic" {
+						// a resolver that panicked failed: the phase ends with an error
+						if !strings.HasSuffix(e.Info, " err") {
+							o.Violate("C17/resolve-outcome", "%s: RE:%s was told %q but the resolver panicked", x, e.Path, e.Info)
+						}
+					} else if ri != e.Info {
 						o.Violate("C17/resolve-outcome", "%s: RE:%s was told %q but the resolver returned %q", x, e.Path, e.Info, ri)
 					}
 				}
@@ -482,6 +507,14 @@ func (c17) Run(t TestingT, scn json.RawMessage, tape *Tape) *Outcome {
 		if tok == "nilfinish" {
 			continue
 		}
+		if parts := strings.SplitN(f, ":", 3); len(parts) == 3 && parts[1] == "evilerr" {
+			// the value cannot be rendered (its Error method fails): the report names the hook
+			x, hk, _ := strings.Cut(parts[2], ".")
+			if !strings.Contains(all, x+"."+c17HookFunc[hk]+":") {
+				o.Violate("C17/panic-not-reported", "the panic %s is not reported in Result.Errors: %s", f, strings.ReplaceAll(all, "\n", " | "))
+			}
+			continue
+		}
 		if !strings.Contains(all, tok) {
 			o.Violate("C17/panic-not-reported", "the panic %s is not reported in Result.Errors: %s", f, strings.ReplaceAll(all, "\n", " | "))
 		}
@@ -517,4 +550,69 @@ func countKeys(v interface{}) int {
 		}
 	}
 	return n
+}
+
+// c17Cancel runs a simulated request whose context is cancelled (or expires) at
+// a scheduler-chosen point, with instrumented extensions, and judges the hook
+// log as it stands when the call returns: whatever the caller gets (the full
+// response or the context's error), every phase that was started before the
+// return is finished exactly once, and the result collection ran. Resolve
+// notifications are not judged here: an abandoned execution may still be
+// delivering them.
+func c17Cancel(t TestingT, sc *C17Scn, tape *Tape) *Outcome {
+	probe := &c16ProbeT{NExt: sc.NExt, HasResult: sc.HasResult}
+	c16Probe = probe
+	defer func() { c16Probe = nil }()
+	o16 := c16{}.Run(t, sc.Cancel, tape)
+	// the response itself is C16's business: only the hook log is judged here
+	o := o16
+	o.Violations = nil
+	o.Fire("cancel-scenario", 1)
+	if o.Infra != "" || !probe.Returned {
+		return o
+	}
+	evs := parseExtLog(probe.LogAtReturn)
+	for i := 0; i < sc.NExt; i++ {
+		x := extName(i)
+		count := map[string]int{}
+		failed := map[string]bool{}
+		var mine []extEv
+		for _, e := range evs {
+			if e.Ext != x {
+				continue
+			}
+			mine = append(mine, e)
+			count[e.Hook]++
+			if e.Failed {
+				failed[e.Hook] = true
+			}
+		}
+		for _, ph := range [][2]string{{"PS", "PE"}, {"VS", "VE"}, {"ES", "EE"}} {
+			if count[ph[0]] > 1 || count[ph[1]] > 1 {
+				o.Violate("C17/finished-twice", "%s: %s/%s called %d/%d times by the time the call returned: %s", x, ph[0], ph[1], count[ph[0]], count[ph[1]], wordOf(mine))
+			}
+			if count[ph[0]] == 1 && count[ph[1]] == 0 {
+				o.Violate("C17/unfinished-phase", "%s: phase %s was started but not finished when the call returned (context %v): %s", x, ph[0], "cancelled or expired", wordOf(mine))
+			}
+			if count[ph[0]] == 0 && count[ph[1]] > 0 {
+				o.Violate("C17/finish-without-start", "%s: %s without a started %s: %s", x, ph[1], ph[0], wordOf(mine))
+			}
+		}
+		if count["ES"] == 1 {
+			if count["HR"] != 1 {
+				o.Violate("C17/result-collection", "%s: HasResult called %d times by the time the call returned: %s", x, count["HR"], wordOf(mine))
+			}
+			if want := sc.HasResult[x]; (count["GR"] == 1) != want || count["GR"] > 1 {
+				o.Violate("C17/result-collection", "%s: GetResult called %d times (HasResult=%v) by the time the call returned: %s", x, count["GR"], want, wordOf(mine))
+			}
+			for _, e := range mine {
+				if e.Hook == "EE" {
+					if want := fmt.Sprintf("data=%v ", probe.HasData); !strings.HasPrefix(e.Info, want) {
+						o.Violate("C17/phase-outcome", "%s: execution finished with %q but the returned result has %s", x, e.Info, want)
+					}
+				}
+			}
+		}
+	}
+	return o
 }
